@@ -12,14 +12,14 @@ RULE = ("four streams, each run in a forked child with a 10 s wall-clock and a 2
         "byte soup up to 4 kB; (2) grammar-directed mutations (a character deleted / duplicated / swapped / replaced, a token "
         "spliced in) of texts rendered from valid worlds; (3) valid worlds with one integer replaced by a boundary value "
         "(0, 1, 2^31 +- 1, 2^32, 2^63 - 1, -1, -2^63, ...) in every numeric position (addresses, sizes, alignments, indices, "
-        "array lengths, unknown<N>, enum values, singleton addresses; vftable sizes and indices capped at 100000 because the "
+        "array lengths, unknown<N>, enum values, singleton addresses; vftable sizes and indices capped at 10000 because the "
         "table they ask for is allocated); (4) self-referential, mutually recursive and cyclic module graphs, unusual identifiers "
         "(raw identifiers, `_`-names, keywords-as-raw). Every observation point must return ok or err – never a panic, an abort or "
         "a timeout – and a parse error reported by the build must name file:line:column with the line inside the file. The model "
         "(parser + resolver + emitter) must agree with the implementation on the outcome class. non-trivial = an input that is "
         "rejected by a check other than the parser's first token, or accepted with >= 2 items; distinct by case text")
 ASSUMPTIONS = ["stack depth, allocator behaviour and panics inside syn / proc_macro2 / prettyplease are runtime behaviour outside the model; only the fuzzing here looks at them",
-               "a vftable is allocated with as many slots as the description asks for: sizes / indices above 100000 are not generated (memory proportional to the table asked for is allowed by the property)"]
+               "a vftable is allocated with as many slots as the description asks for: sizes / indices above 10000 are not generated (memory proportional to the table asked for is allowed by the property)"]
 
 BOUNDARY = [0, 1, 2, 3, 7, 255, 256, 65535, 65536, 2 ** 31 - 1, 2 ** 31, 2 ** 31 + 1, 2 ** 32 - 1, 2 ** 32, 2 ** 32 + 1,
             2 ** 62, 2 ** 63 - 2, 2 ** 63 - 1, -1, -2, -255, -2 ** 31, -2 ** 63 + 1, -2 ** 63]
@@ -72,8 +72,8 @@ def generate(rng, tier):
                 v = rng.choice(BOUNDARY)
                 parent = node_at(c, p[:-1])
                 capped = tag(parent) == 'af' and parent[1] in ('index',) or (tag(parent) == 'af' and parent[1] == 'size' and is_vftable_attr(c, p))
-                if capped and abs(v) > 100000:
-                    v = rng.choice([100000, 99999, -1, 0])
+                if capped and abs(v) > 10000:
+                    v = rng.choice([10000, 9999, -1, 0])
                 if tag(nd) in ('arr', 'unk'):
                     v = abs(v)
                     c = replace_at(c, p, nd[:-1] + [v])
